@@ -58,6 +58,76 @@ def wrap_isolation(run):
     run.extra["wrap_isolation_cases"] = n
 
 
+def ordered_snapshot(x):
+    """Value, insertion order and identity graph of a JSON-like structure."""
+    ids = []
+
+    def walk(v):
+        if isinstance(v, (dict, list)):
+            ids.append(id(v))
+            for c in (v.values() if isinstance(v, dict) else v):
+                walk(c)
+    walk(x)
+    return json.dumps(x, sort_keys=False, default=repr), ids
+
+
+def scale_purity(run):
+    """Large arguments: hundreds of authorized keys (unsorted), over a thousand signature entries and delegations.  Deep ordered
+    snapshots of every argument around every call, and the verdict of an immediate repetition."""
+    from .. import crypto, gamma, metadata
+    from ..twins import twin_canon
+    auth, common = lib.cct("authentication"), lib.cct("common")
+    r = random.Random(run.seed * 101 + 9)
+    keys = gamma.Keys(1100, run.seed, offset=9000)
+    n = 0
+    for nk in (9, 255, 256, 257, 300, 1100):
+        ks = r.sample(range(1, 1101), nk)
+        pubs = [keys.pub[k] for k in ks]                      # deliberately unsorted
+        P = {"pkg": "x", "n": nk}
+        Pb = twin_canon(P)
+        hdr = gamma.HEADERS[0]
+        signers = ks[: max(1, nk // 3)]
+        raw = {"signatures": {keys.pub[k]: {"signature": keys.sign(k, Pb).hex()} for k in reversed(signers)}, "signed": P}
+        dels = {"root": metadata.rule(list(pubs), max(1, nk // 4)), "key_mgr": metadata.rule(list(reversed(pubs)), 2),
+                **{"zz-%04d" % i: metadata.rule(r.sample(pubs, min(3, nk)), 1) for i in range(nk)}}
+        root1 = metadata.delegating_doc("root", 1, dels, r)
+        root2 = metadata.delegating_doc("root", 2, dels, r)
+        for doc in (root1, root2):
+            doc["delegations"] = dict(reversed(list(doc["delegations"].items())))      # unsorted insertion order too
+        b2 = twin_canon(root2)
+        e1 = {"signatures": {}, "signed": root1}
+        e2 = {"signatures": {keys.pub[k]: {"other_headers": hdr.hex(), "signature": keys.sign(k, crypto.gpg_digest(b2, hdr)).hex()} for k in signers}, "signed": root2}
+        km = metadata.delegating_doc("key_mgr", 1, {"pkg_mgr": metadata.rule(list(pubs), 1)}, r)
+        bk = twin_canon(km)
+        ekm = {"signatures": {keys.pub[k]: {"signature": keys.sign(k, bk).hex()} for k in signers[:3]}, "signed": km}
+        calls = [("verify_signable", auth.verify_signable, [raw, pubs, len(signers)], {}),
+                 ("verify_signable", auth.verify_signable, [raw, pubs, len(signers) + 1], {}),
+                 ("verify_signable(gpg)", auth.verify_signable, [e2, pubs, 1], {"gpg": True}),
+                 ("verify_root", auth.verify_root, [e1, e2], {}),
+                 ("verify_delegation", auth.verify_delegation, ["key_mgr", ekm, e1], {}),
+                 ("verify_delegation", auth.verify_delegation, ["pkg_mgr", raw, ekm], {}),
+                 ("checkformat_delegating_metadata", common.checkformat_delegating_metadata, [e1], {}),
+                 ("checkformat_delegations", common.checkformat_delegations, [root1["delegations"]], {}),
+                 ("checkformat_list_of_hex_keys", common.checkformat_list_of_hex_keys, [pubs], {}),
+                 ("checkformat_signable", common.checkformat_signable, [e2], {})]
+        for name, fn, args, kw in calls:
+            before = [ordered_snapshot(a) for a in args]
+            o1, x1, _ = lib.call(fn, *args, **kw)
+            after = [ordered_snapshot(a) for a in args]
+            o2, _, _ = lib.call(fn, *args, **kw)
+            n += 2
+            run._distinct.add(f"scale-{name}-{nk}-{len(run._distinct)}")
+            if before != after:
+                which = [i for i in range(len(args)) if before[i] != after[i]]
+                run.violation(f"{name} modified an object passed to it (large arguments)",
+                              {"kind": "scale_purity", "api": name, "authorized_keys": nk, "argument_positions_changed": which, "outcome": o1})
+            if o1 != o2:
+                run.violation(f"{name}: repeating the call with the same (large) arguments changes the verdict",
+                              {"kind": "scale_purity", "api": name, "authorized_keys": nk, "first": o1, "second": o2})
+    run.evaluations += n
+    run.extra["scale_purity_calls"] = n
+
+
 def check(run):
     quick = run.tier == "quick"
     run.rule = ("Calls.tla (two-level heap, shared pool, two threads stepping through the verifier loop, caller-side mutation, wrap, sign) "
@@ -128,6 +198,7 @@ def check(run):
     ce.preemption_schedules(run, quick)
     # wrap isolation at every depth
     wrap_isolation(run)
+    scale_purity(run)
     # configurations: the same histories, sequentially, in fresh interpreters
     sample = behaviours[: (60 if quick else 600)]
     for cfg in procs.CONFIGS:
